@@ -843,7 +843,207 @@ def compare_wake(w, answer):
     return None if ok else (answer, w)
 
 
-RUNNERS = {'client': run_client, 'server': run_server, 'link': run_link}
+# ---- calls competing for stream slots and for connection-level credit ----------------------------------
+
+SLOT_STRIKES = ['rst', 'rst', 'task-cancel', 'stream-cancel', 'deadline', 'http-503', 'bad-status']
+
+
+def gen_slots(rng):
+    """the peer allows only `mcs` concurrent streams, so some calls wait in send_request for a slot that a
+    finished or struck call must free; windows are at their minimum (65535) and struck calls are sent
+    bursts of DATA (also padded) they never read, whose connection-level credit the later calls need"""
+    k = rng.choice([3, 3, 4, 5, 6])
+    mcs = rng.choice([1, 1, 2, 3])
+    calls = []
+    strands = []
+    for i in range(k):
+        c = gen_call_common(rng, i, SLOT_STRIKES, 0.55)
+        tag = c['tag']
+        s = c['strike']
+        bulk = bool(s) and s['kind'] in ('rst', 'task-cancel', 'deadline') and rng.random() < 0.7
+        if bulk:
+            n = 1 if c['card'][1] == 'U' else rng.choice([1, 2, 3])
+            c['resp'] = [(('%s-r%d-' % (tag, j)).encode() + bytes([rng.randint(0, 255)]) * rng.choice([9000, 15000, 22000])).hex()
+                         for j in range(n)]
+        elif not s and rng.random() < 0.6:
+            n = len(c['resp'])
+            c['resp'] = [(('%s-r%d-' % (tag, j)).encode() + bytes([rng.randint(0, 255)]) * rng.choice([3000, 9000, 14000])).hex()
+                         for j in range(n)]
+        frames = client_strand(rng, c)
+        out = []
+        for fr in frames:                         # frames of at most 12000 bytes, some of them padded
+            if fr[0] == 'D' and len(fr[1]) > 24000:
+                b = bytes.fromhex(fr[1])
+                for o in range(0, len(b), 12000):
+                    out.append(['D', b[o:o + 12000].hex(), False])
+            else:
+                out.append(fr)
+        for fr in out:
+            if fr[0] == 'D':
+                fr.append(rng.choice([None, None, 0, 7, 200]))
+        c['frames'] = out
+        strand = place_strike(rng, c, out)
+        c['burst'] = bulk                          # the frames before the strike and the strike: one read
+        if bulk and s['kind'] in ('rst', 'task-cancel'):
+            # strike late, so that there is unread data when it lands
+            body = [x for x in strand if x[0] == 'f']
+            p = rng.randint(max(1, len(body) - 1), len(body)) if s['kind'] == 'task-cancel' else \
+                rng.randint(max(1, len(out) - 1), len(out) - 1)
+            strike = ['rst', s['code']] if s['kind'] == 'rst' else ['cancel']
+            strand = body[:p] + [strike] + ([] if s['kind'] == 'rst' else body[p:])
+        calls.append(c)
+        strands.append(strand)
+    order = [i for i, st in enumerate(strands) for _ in st]
+    rng.shuffle(order)
+    for c, st in zip(calls, strands):
+        c['strand'] = st
+    return {'end': 'slots', 'mcs': mcs, 'calls': calls, 'order': order,
+            'cuts': [rng.randint(0, 30000) for _ in range(3)] if rng.random() < 0.5 else []}
+
+
+def run_slots(scn, only=None):
+    from grpclib.config import Configuration
+    calls = scn['calls']
+    idxs = [only] if only is not None else list(range(len(calls)))
+    out = {'calls': {}, 'fresh': None, 'connects': None, 'rec': None, 'skipped': 0, 'violations': 0,
+           'stuck': None}
+    with vloop.session() as loop:
+        ce = wire.ClientEnd(loop, config=Configuration(http2_connection_window_size=65535,
+                                                       http2_stream_window_size=65535))
+        recs = []
+        attach_recorder(ce, recs, 'C')
+        ct = loop.create_task(ce.channel.__connect__())
+        loop.run_quiet(TICK)
+        assert ct.done()
+        peer = ce.peer
+        peer.settings({SettingCodes.MAX_CONCURRENT_STREAMS: scn['mcs']})
+        loop.run_quiet(TICK)
+        rr = {i: new_rec() for i in idxs}
+        tasks = {}
+        for i in idxs:                             # started one after the other: admission order is fixed
+            tasks[i] = loop.create_task(client_call(ce.channel, calls[i], rr[i]))
+            loop.run_quiet(TICK)
+        sid, preq = {}, {}
+
+        def absorb():
+            for ev in peer.take_events():
+                if isinstance(ev, E.RequestReceived):
+                    tag = dict(ev.headers).get('x-call')
+                    for i in idxs:
+                        if calls[i]['tag'] == tag:
+                            sid[i] = ev.stream_id
+                    preq[ev.stream_id] = {'md': [[k, v] for k, v in ev.headers if k.startswith('x-')], 'data': b''}
+                elif isinstance(ev, E.DataReceived) and ev.stream_id in preq:
+                    preq[ev.stream_id]['data'] += ev.data
+        absorb()
+        pos = {i: 0 for i in idxs}
+        order = [i for i in scn['order'] if i in pos]
+
+        def frame_ready(i, st):
+            """can the scripted server put this step on the wire now"""
+            if st[0] in ('cancel', 'advance'):
+                return True
+            if i not in sid:
+                return False                       # the call still waits for a stream slot
+            if st[0] == 'rst':
+                return True
+            fr = calls[i]['frames'][st[1]]
+            if fr[0] != 'D':
+                return True
+            need = len(fr[1]) // 2 + ((fr[3] + 1) if len(fr) > 3 and fr[3] is not None else 0)
+            try:
+                return peer.h2.local_flow_control_window(sid[i]) >= need
+            except Exception:
+                return True                        # stream already closed on the peer's side: send fails, skipped
+
+        def put(i, st):
+            try:
+                if st[0] == 'rst':
+                    peer.h2.reset_stream(sid[i], error_code=st[1])
+                else:
+                    fr = calls[i]['frames'][st[1]]
+                    if fr[0] == 'H':
+                        peer.h2.send_headers(sid[i], [tuple(x) for x in fr[1]], end_stream=fr[2])
+                    else:
+                        peer.h2.send_data(sid[i], bytes.fromhex(fr[1]), end_stream=fr[2],
+                                          pad_length=fr[3] if len(fr) > 3 else None)
+            except Exception:
+                out['skipped'] += 1
+            return peer.h2.data_to_send()
+
+        while order:
+            pick = None
+            for n, i in enumerate(order):
+                st = calls[i]['strand'][pos[i]]
+                if frame_ready(i, st):
+                    pick = n
+                    break
+            if pick is None:
+                out['stuck'] = sorted(set(order))  # nothing the server may send: these calls never proceed
+                break
+            i = order.pop(pick)
+            strand = calls[i]['strand']
+            st = strand[pos[i]]
+            pos[i] += 1
+            if st[0] == 'cancel':
+                tasks[i].cancel()
+            elif st[0] == 'advance':
+                loop.advance(st[1])
+            else:
+                buf = put(i, st)
+                # a burst: the following frames of this call up to and including its strike, in one read
+                while calls[i].get('burst') and st[0] == 'f' and pos[i] < len(strand) and \
+                        any(x[0] in ('rst', 'cancel') for x in strand[pos[i]:]) and \
+                        frame_ready(i, strand[pos[i]]):
+                    nx = strand[pos[i]]
+                    pos[i] += 1
+                    order.remove(i)
+                    if nx[0] == 'cancel':
+                        feed_cut(ce.transport, buf, scn.get('cuts') or [])
+                        buf = b''
+                        tasks[i].cancel()
+                        break
+                    buf += put(i, nx)
+                    if nx[0] == 'rst':
+                        break
+                feed_cut(ce.transport, buf, scn.get('cuts') or [])
+            loop.run_quiet(TICK)
+            absorb()
+        loop.run_quiet(TICK)
+        loop.advance(30)
+        absorb()
+        for i in idxs:
+            r = rr[i]
+            if not r['done']:
+                r['exc'] = 'PENDING'
+            out['calls'][i] = {'exc': r['exc'], 'im': r['im'], 'msgs': r['msgs'], 'tm': r['tm'],
+                               'peer_md': preq[sid[i]]['md'] if i in sid else None,
+                               'peer_data': preq[sid[i]]['data'].hex() if i in sid else None}
+        from grpclib.client import UnaryUnaryMethod
+        m = UnaryUnaryMethod(ce.channel, '/v.S/Fresh', bytes, bytes)
+        ft = loop.create_task(m(b'fresh', metadata=[('x-call', 'fresh')]))
+        loop.run_quiet(TICK)
+        fs = None
+        for ev in peer.take_events():
+            if isinstance(ev, E.RequestReceived) and dict(ev.headers).get('x-call') == 'fresh':
+                fs = ev.stream_id
+        if fs is not None:
+            peer.headers(fs, P.RESP_HEADERS, flush=False)
+            peer.data(fs, P.grpc_frame(b'fresh-reply'), flush=False)
+            peer.headers(fs, [('grpc-status', '0')], end_stream=True)
+        loop.run_quiet(TICK)
+        loop.advance(5)
+        o = vloop.outcome(ft)
+        out['fresh'] = 'ok' if o == ('ok', b'fresh-reply') else (exc_name(o[1]) if o[0] == 'exc' else o[0])
+        out['connects'] = ce.connects
+        out['violations'] = sum(len(c[2].violations) for c in ce.conns)
+        out['conn_window'] = peer.h2.outbound_flow_control_window
+        out['rec'] = recs[0] if recs else None
+        out['final'] = recs[0].final() if recs else None
+    return out
+
+
+RUNNERS = {'client': run_client, 'server': run_server, 'link': run_link, 'slots': run_slots}
 
 
 # ---- expectations: "each receives exactly its own metadata, messages and status" ---------------------
@@ -985,7 +1185,9 @@ def check_scenario(ctx, res, scn, pending):
         solo = run_(scn, only=i)
         a, b = public(mux['calls'][i]), public(solo['calls'][i])
         struck = bool(c['strike'])
-        if a != b:
+        if a != b and not (struck and end == 'slots'):
+            # (slots: a struck call may be struck while it still waits for its slot, which it never does
+            #  alone; the property speaks about the calls nobody struck)
             fail('call %d (%s, strike=%s) differs from the same call executed alone' %
                  (i, c['card'], (c['strike'] or {}).get('kind')),
                  'struck-differs-from-solo' if struck else 'unaffected-differs-from-solo',
@@ -994,9 +1196,9 @@ def check_scenario(ctx, res, scn, pending):
         if not struck:
             got = mux['calls'][i]
             bad = []
-            if end in ('client', 'link'):
+            if end in ('client', 'link', 'slots'):
                 bad += expect_client_side(c, got)
-            if end == 'client':
+            if end in ('client', 'slots'):
                 want = b''.join(P.grpc_frame(bytes.fromhex(m)) for m in c['req']).hex()
                 if got['peer_data'] != want or got['peer_md'] != c['md']:
                     bad.append('request as seen by the peer')
@@ -1026,7 +1228,9 @@ def check_scenario(ctx, res, scn, pending):
         fail('streams left in the registry: %s' % mux['leftover'], 'leftover', mux['leftover'], strikes=kinds)
 
     # ---- correspondence: the recorded inputs through the model
-    sides = {'client': ['C'], 'server': ['S'], 'link': ['C', 'S']}[end]
+    if mux.get('stuck'):
+        res.count('slots:server could not go on (calls %s blocked)' % (len(mux['stuck']),))
+    sides = {'client': ['C'], 'server': ['S'], 'link': ['C', 'S'], 'slots': ['C']}[end]
     for r, side in zip(recs, sides):
         lines, final = model_lines(r, side)
         for kind, info, line in lines:
@@ -1051,7 +1255,8 @@ def settle(ctx, res, pending):
                                       'line': line[:400]})
 
 
-GENS = {'client': gen_client, 'server': gen_server, 'link': gen_link, 'spurious': gen_spurious}
+GENS = {'client': gen_client, 'server': gen_server, 'link': gen_link, 'spurious': gen_spurious,
+        'slots': gen_slots}
 
 
 def run(ctx):
@@ -1072,7 +1277,10 @@ def _run(ctx):
                 'calls struck at a PRNG point by RST_STREAM(any code), task.cancel, stream.cancel(), a short '
                 'deadline, or a malformed response; server end: the mirror image with handler exceptions and '
                 'grpc-timeout; link: real client <-> real server through a PRNG byte re-cutter with PRNG '
-                'virtual delays. Every call is re-run alone on a fresh connection. spurious: a sender blocked on an '
+                'virtual delays. slots: 3..6 calls against a peer allowing 1..3 concurrent streams with 65535-byte '
+                'windows, so that calls wait for a slot / for connection credit that finished or struck calls must '
+                'give back (bursts of unread, partly padded DATA in the same read as the RST_STREAM / before the '
+                'cancel). Every call is re-run alone on a fresh connection. spurious: a sender blocked on an '
                 'exhausted stream window (peer INITIAL_WINDOW_SIZE 16/64/1000, message 100..40000 bytes) is woken '
                 'by PRNG connection-level events / pause / resume / real credit, next to a second call. distinct = distinct '
                 '(end, cardinalities, strike kinds per call, schedule length/4)')
@@ -1082,7 +1290,7 @@ def _run(ctx):
         check_scenario(ctx, res, scn, pending)
         res.count('corpus')
     n = ctx.n(400, 6000)
-    for end, share in (('client', 1.0), ('server', 1.0), ('link', 0.5)):
+    for end, share in (('client', 1.0), ('server', 1.0), ('link', 0.5), ('slots', 0.5)):
         for _ in range(int(n * share)):
             check_scenario(ctx, res, GENS[end](rng), pending)
     for _ in range(n // 2):
